@@ -5,7 +5,8 @@ Model of the job slot semaphores of pym/bob/builder.py:
              a waiter is `(task, future done)`), without cancellation;
 * `ALock`  – `asyncio.Lock` (workspace locks of the builder);
 * `St`     – `JobServerSemaphore`: `__sem`, `__waitersCnt`, `__tokens` (only their number matters),
-             `__acquired`, `__recursive`, the job server pipe/FIFO as a counter with a non-blocking read,
+             `__acquired` (slots owned, including slots handed over to a waiter that has not continued yet),
+             `__recursive`, the job server pipe/FIFO as a counter with a non-blocking read,
              whether `jobavailableCallback` is registered as reader of the pipe, and the tokens currently
              held by child `make` processes (the environment may take tokens and has to return them).
 
@@ -117,7 +118,8 @@ def St.init (recursive : Bool) (pipe : Nat) : St :=
   { recursive, sem := { value := 0, waiters := [] }, waitersCnt := 0, tokens := 0, acquired := 0,
     pipe, reader := false, envHeld := 0 }
 
-/-- `JobServerSemaphore.acquire` up to its first suspension -/
+/-- `JobServerSemaphore.acquire` up to its first suspension.  A task that has to wait is counted in
+`__acquired` by whoever hands a slot over to it (`release` or `jobavailableCallback`). -/
 def St.acquire (s : St) (t : Nat) : St × Acq :=
   if s.recursive && s.acquired == 0 then ({ s with acquired := 1 }, .got)
   else if s.pipe > 0 then
@@ -125,15 +127,13 @@ def St.acquire (s : St) (t : Nat) : St × Acq :=
   else
     let rd := if s.waitersCnt == 0 then true else s.reader
     let (sem', a) := s.sem.acquire t
-    match a with
-    | .got => ({ s with reader := rd, waitersCnt := s.waitersCnt + 1, sem := sem', acquired := s.acquired + 1 }, .got)
-    | .blocked => ({ s with reader := rd, waitersCnt := s.waitersCnt + 1, sem := sem' }, .blocked)
+    ({ s with reader := rd, waitersCnt := s.waitersCnt + 1, sem := sem' }, a)
 
 def St.woken (s : St) (t : Nat) : Bool := s.sem.woken t
 
-/-- continuation of `acquire` after `await self.__sem.acquire()` -/
+/-- continuation of `acquire` after `await self.__sem.acquire()` (returns at once) -/
 def St.resume (s : St) (t : Nat) : St :=
-  { s with sem := s.sem.resume t, acquired := s.acquired + 1 }
+  { s with sem := s.sem.resume t }
 
 /-- the `while self.__waitersCnt:` loop of `jobavailableCallback` -/
 def cbLoop : Nat → St → St
@@ -142,20 +142,19 @@ def cbLoop : Nat → St → St
     if s.waitersCnt == 0 then s
     else if s.pipe == 0 then s
     else cbLoop fuel { s with pipe := s.pipe - 1, tokens := s.tokens + 1, waitersCnt := s.waitersCnt - 1,
-                              sem := s.sem.release }
+                              acquired := s.acquired + 1, sem := s.sem.release }
 
 /-- `jobavailableCallback` (run by the event loop when the pipe is readable and the reader is registered) -/
 def St.callback (s : St) : St :=
   let s1 := cbLoop s.waitersCnt s
   if s1.waitersCnt == 0 then { s1 with reader := false } else s1
 
-/-- `JobServerSemaphore.release` -/
+/-- `JobServerSemaphore.release`: with waiters the slot is handed over (and stays counted) -/
 def St.release (s : St) : Except RelErr St :=
   if s.acquired == 0 then .error .valueError
   else if s.waitersCnt != 0 then
     let w := s.waitersCnt - 1
-    .ok { s with waitersCnt := w, sem := s.sem.release, reader := if w == 0 then false else s.reader,
-                 acquired := s.acquired - 1 }
+    .ok { s with waitersCnt := w, sem := s.sem.release, reader := if w == 0 then false else s.reader }
   else if !s.recursive || s.acquired > 1 then
     if s.tokens == 0 then .error .indexError
     else .ok { s with tokens := s.tokens - 1, pipe := s.pipe + 1, acquired := s.acquired - 1 }
